@@ -35,6 +35,8 @@
 (* "caller" is the variant that lets the MAC append a whole block straight *)
 (* into p (f.prev = Sum(p[:0]) when len(p) >= size, else Sum(nil)); it is  *)
 (* kept as a documented counterexample (HkdfImpl_MC_Alias.cfg must fail).  *)
+(* (info is also a caller slice that the code keeps; the model assumes the *)
+(* caller does not modify it - recorded by an informational probe.)        *)
 (* Refinement: HkdfImpl => HkdfReader under                                *)
 (*   produced = H * (blocks generated) - BufLen(buf).                      *)
 (***************************************************************************)
